@@ -148,6 +148,18 @@ class extract_visitor(NodeVisitor):
         self.flow = self.make_flow('join', [orelse])
         self.flow.scope.flow = self.flow
 
+    def alias_loc(self, alias, name, start):
+        # type: (ast.alias, str, tuple[int, int]) -> tuple[int, int]
+        """Position of the identifier an import alias binds"""
+        if not hasattr(alias, 'col_offset'):
+            # old pythons: no alias positions, search from the statement start
+            return self.top.find_id_loc(name, start)
+        if alias.asname:
+            # the identifier after 'as': skip the imported name, which may be spelled the same
+            return self.top.find_id_loc(
+                name, (alias.lineno, alias.col_offset + len(alias.name) - 1))
+        return np(alias)
+
     def visit_Import(self, node):
         # type: (ast.Import) -> None
         loc = get_expr_end(node)
@@ -163,7 +175,7 @@ class extract_visitor(NodeVisitor):
                 iname = name
                 self.top._imports.append(a.name)
 
-            declared_at = self.top.find_id_loc(name, start)
+            declared_at = self.alias_loc(a, name, start)
             self.flow.add_name(ImportedName(name, loc, declared_at, iname, None,
                                             qualified=qualified))
 
@@ -173,7 +185,7 @@ class extract_visitor(NodeVisitor):
         start = np(node)
         for a in node.names:
             name = a.asname or a.name
-            declared_at = self.top.find_id_loc(name, start)
+            declared_at = self.alias_loc(a, name, start)
             module = '.' * node.level + (node.module or '')
             if name == '*':
                 self.top._star_imports.append((loc, declared_at, module, self.flow))
